@@ -42,6 +42,13 @@ for sid in sys.argv[1:]:
                       "the command-line front ends (drf ls/cp/mv/ln/watch/mirror/ringbuffer: option parsing and defaults), the Python "
                       "wrapper versus the C extension versus the C library, constructor argument validation and normalisation, "
                       "what happens on the second call of something usually called once.\n\n")
+    if sid[3:] >= "i":
+        WAVE_NOTE += ("THIS ROUND ALSO LOOK AT: constructor arguments and the forms they may take (dtype given as a string, an "
+                      "np.dtype, a Python/numpy type or a structured dtype; uuid_str None; marching_periods; every compression level; "
+                      "checksum; rdcc_nbytes; several top-level directories given as a list / tuple / generator), options whose "
+                      "default is rarely changed, legacy on-disk forms the readers still accept (metadata.h5 as properties file, "
+                      "files lacking newer attributes), numeric corner values of the options (0, 1, the largest accepted value), "
+                      "and clean-up paths (close called twice, __del__, context managers, KeyboardInterrupt in the middle of a call).\n\n")
     txt = txt.replace("DELIVERABLES, all inside", WAVE_NOTE + "DELIVERABLES, all inside", 1) if WAVE_NOTE else txt
     if prev:
         div = ("DIVERSITY: other engineers already seeded these changes for the same property — " + "; ".join('"%s"' % s for s in prev) +
